@@ -5,12 +5,15 @@ SHAPES = ["block", "sub", "multi", "range", "super", "outside", "otherfam", "edg
 
 
 def pick_geometry(rng, small=False):
-    fam = rng.choice(["v4", "v4", "v6"])
+    fam = rng.choice(["v4", "v4", "v6", "v6"])
     w = W[fam]
-    bits = rng.choice([0, 1, 2, 2, 3, 4, 4, 6]) if not small else rng.choice([0, 1, 2])
-    hb = rng.choice([0, 0, 1, 4, 8, 8, 12, 64 if fam == "v6" else 16])
-    hb = min(hb, w - bits)
-    nlen = w - hb
+    bits = rng.choice([0, 1, 2, 2, 3, 4, 4, 6, 8]) if not small else rng.choice([0, 1, 2])
+    if fam == "v4":
+        nlen = rng.choice([32, 32, 31, 30, 28, 28, 24, 24, 20, 16, 12, 8])
+    else:
+        # node masks on both sides of (and at) the 64-bit boundary, ranges straddling it
+        nlen = rng.choice([128, 127, 124, 120, 116, 112, 96, 80, 72, 68, 66, 65, 64, 64, 63, 60, 56, 48])
+    bits = min(bits, nlen)
     clen = nlen - bits
     if fam == "v4" and (clen, nlen) == (0, 32):
         clen = 1
